@@ -11,6 +11,7 @@ Tie to the source:
     message and random long ones, given as list / bytes / bytearray.
 """
 import importlib
+import json
 import os
 import sys
 
@@ -213,6 +214,87 @@ def oracle_search(mod, ctx, msgs):
 
 
 
+
+RACE_PROBE = r"""
+import sys, threading, json, importlib
+sys.path.insert(0, sys.argv[1])
+K = int(sys.argv[2]); msgA = bytes(json.loads(sys.argv[3])); msgB = bytes(json.loads(sys.argv[4]))
+import robotpy_ext.misc.crc7 as mod
+fn = mod.__file__
+go_main = threading.Event(); go_a = threading.Event(); res = {}
+count = [0]
+def tracer(frame, event, arg):
+    if frame.f_code.co_filename != fn:
+        return None
+    def local(frame, event, arg):
+        if event == 'line':
+            count[0] += 1
+            if count[0] == K:
+                go_main.set(); go_a.wait(20)
+        return local
+    return local
+def a():
+    sys.settrace(tracer)
+    try:
+        res['a'] = ['ok', mod.crc7(msgA)]
+    except BaseException as e:
+        res['a'] = ['exc', type(e).__name__]
+    finally:
+        sys.settrace(None); go_main.set()
+t = threading.Thread(target=a); t.start()
+go_main.wait(20)
+try:
+    res['b'] = ['ok', mod.crc7(msgB)]
+except BaseException as e:
+    res['b'] = ['exc', type(e).__name__]
+go_a.set(); t.join(20)
+try:
+    res['after'] = ['ok', mod.crc7(msgB)]
+except BaseException as e:
+    res['after'] = ['exc', type(e).__name__]
+res['lines'] = count[0]
+print(json.dumps(res))
+"""
+
+
+def race_probe(k, msg_a, msg_b):
+    """first use of the module from two threads: thread A is held after its k-th executed line inside crc7.py (fresh process,
+    so module-level lazy state is virgin) while the main thread makes one complete call; then A finishes, then one more call"""
+    import subprocess
+    from .common import REPO
+    try:
+        p = subprocess.run([sys.executable, "-c", RACE_PROBE, REPO, str(k), json.dumps(list(msg_a)), json.dumps(list(msg_b))],
+                           stdout=subprocess.PIPE, stderr=subprocess.DEVNULL, text=True, timeout=60)
+        return json.loads(p.stdout.strip().splitlines()[-1])
+    except Exception:
+        return None
+
+
+def race_verdict(res, msg_a, msg_b):
+    if not res:
+        return None
+    for who, m in (("a", msg_a), ("b", msg_b), ("after", msg_b)):
+        if who in res and res[who] != ["ok", ref_crc(list(m))]:
+            return "crc7(%r) %s gave %r, bit-serial CRC-7 is %d" % (
+                list(m), {"a": "in the thread that was held", "b": "called from a second thread meanwhile", "after": "called afterwards"}[who],
+                res[who], ref_crc(list(m)))
+    return None
+
+
+def race_search():
+    msg_a, msg_b = [0xFF, 0x00, 0xA7, 0x3C], [0x12, 0x80, 0x7F]
+    from concurrent.futures import ThreadPoolExecutor
+    ks = list(range(1, 41)) + list(range(45, 400, 7))
+    with ThreadPoolExecutor(8) as ex:
+        out = list(ex.map(lambda k: (k, race_probe(k, msg_a, msg_b)), ks))
+    for k, res in out:
+        vd = race_verdict(res, msg_a, msg_b)
+        if vd:
+            return {"kind": "race", "what": "first use from two threads (thread A held after %d executed lines of crc7.py): %s" % (k, vd),
+                    "fingerprint": "crc7-first-use-race", "k": k, "msg_a": msg_a, "msg_b": msg_b, "observed": res}
+    return None
+
+
 def translate_loop(repo):
     """the byte loop of crc7(), read from the source (fail-closed):
          csum = 0 ; for d in data: csum = _crc7_table[d ^ csum] ; return csum
@@ -386,6 +468,10 @@ Print Assumptions impl_burst7.
                 break
         if not found:
             found = oracle_search(mod, ctx, msgs)
+        if not found:
+            v = race_search()
+            if v:
+                found = [v]
         if found:
             # shrink: shortest failing prefix/suffix
             v = found[0]
@@ -418,6 +504,15 @@ def replay(ctx, obj):
         g2 = call_raw(mod, buf)
         print("crc7(buffer) = %r ; after flipping bit %d of byte %d in place crc7(buffer) = %r ; reference = %d" % (g1, bit, i, g2, ref_crc(list(buf))))
         if g2 != ("ok", ref_crc(list(buf))) or g1 != ("ok", ref_crc(first)):
+            print("VIOLATION property=C20 replay=(replayed)")
+            return 1
+        return 0
+    if obj.get("kind") == "race":
+        res = race_probe(obj["k"], obj["msg_a"], obj["msg_b"])
+        vd = race_verdict(res, obj["msg_a"], obj["msg_b"])
+        print("first use from two threads, thread A held after %d lines: %r" % (obj["k"], res))
+        if vd:
+            print("violates C20:", vd)
             print("VIOLATION property=C20 replay=(replayed)")
             return 1
         return 0
